@@ -146,7 +146,8 @@ def replay_file(path):
     scn = Scenario.from_json(body["scenario"])
     cfg = ex.Config(**(body.get("cfg") or {}))
     mons = [runner.resolve(n) for n in body.get("monitors") or []]
-    sim, found = ex.run_path(scn, cfg, mons, body["history"])
+    prior = [body["pair"]] if body.get("pair") else None
+    sim, found = ex.run_path(scn, cfg, mons, body["history"], prior=prior)
     want = (body["property"], body["kind"], json.dumps(body.get("sig", {}), sort_keys=True))
     hit = [f for f in found if (f["property"], f["kind"], json.dumps(f.get("sig", {}), sort_keys=True)) == want]
     print("replayed %d moves on a fresh conductor; final status=%s" % (len(body["history"]), sim.status))
@@ -210,3 +211,106 @@ def c18(tier, seed, only=None):
 
 
 REGISTRY.update({"C05": c05, "C18": c18})
+
+
+# ------------------------------------------------------------------ C02 / C04 / C10 / C09 / C08
+SM = "vx.monitors.status."
+
+
+def _ctrl_jobs(tier, mons, base_cfg, families=("F2", "F4", "F5"), big_dev=None):
+    jobs = []
+    scns = []
+    if "F2" in families:
+        scns += gen.f2_all(tier)
+    if "F4" in families:
+        scns += gen.f4_all(tier)
+    if "F5" in families:
+        scns += gen.f5_all(tier)
+    if "F6" in families:
+        scns += gen.f6_publish(tier)
+    for s in scns:
+        cfg = dict(base_cfg)
+        if gen.is_big(s):
+            cfg["dev"] = big_dev if big_dev is not None else (2 if tier == "quick" else 3)
+        jobs.append(job(s, cfg, mons))
+    return jobs
+
+
+def c02(tier, seed, only=None):
+    t0 = time.time()
+    mons = [SM + "TruthfulStatus"]
+    jobs = _ctrl_jobs(tier, mons, dict(pause=1, resume=1, cancel=1, horizon=60))
+    jobs = _filter(jobs, only)
+    results = runner.run_jobs(jobs, seed=seed)
+    rule = (
+        "status invariants evaluated in every explored state against the harness-side in-flight set and "
+        "the token-game reference's reading of failures (unhandled failure / fail command); all "
+        "interleavings of dispatch/complete x {succeeded, failed} with <=1 pause, <=1 resume (at rest), "
+        "<=1 cancel, each in both spellings; big shapes deviation-bounded"
+    )
+    return runner.finish("C02", tier, seed, MC, results, rule, t0, mons)
+
+
+def c04(tier, seed, only=None):
+    t0 = time.time()
+    mons = [SM + "TerminalFinal"]
+    jobs = _ctrl_jobs(tier, mons, dict(pause=1, resume=1, cancel=1, render=True, horizon=60), big_dev=1)
+    jobs = _filter(jobs, only)
+    results = runner.run_jobs(jobs, seed=seed)
+    rule = (
+        "exploration continues past the first terminal status (late completions of in-flight actions in "
+        "every order with every outcome, render); in every reachable state all 16 status values are "
+        "requested on a copy: a rejected request must leave serialize() byte-identical, an accepted one "
+        "must respect finality"
+    )
+    return runner.finish("C04", tier, seed, MC, results, rule, t0, mons)
+
+
+def c10(tier, seed, only=None):
+    t0 = time.time()
+    mons = [SM + "CancelStops"]
+    jobs = _ctrl_jobs(tier, mons, dict(pause=1, resume=1, cancel=1, render=True, horizon=60))
+    jobs = _filter(jobs, only)
+    results = runner.run_jobs(jobs, seed=seed)
+    rule = (
+        "one cancel request (canceling or canceled) at every position of every history, also after a "
+        "pause/resume; in-flight actions then report succeeded/failed/canceled in every order; invariants "
+        "in every later state; render on the canceled workflow"
+    )
+    return runner.finish("C10", tier, seed, MC, results, rule, t0, mons)
+
+
+def c09(tier, seed, only=None):
+    t0 = time.time()
+    mons = ["vx.monitors.pause.PauseTransparent"]
+    jobs = _ctrl_jobs(tier, mons, dict(pause=1, resume=1, horizon=60))
+    jobs = _filter(jobs, only)
+    results = runner.run_jobs(jobs, seed=seed)
+    rule = (
+        "one pause request (pausing or paused) at every position of every history and one resume "
+        "(running or resuming) once the workflow is at rest; a twin conductor receives the same "
+        "completion reports without the pause/resume (state identity includes the twin); outcome "
+        "compared at every complete history; no offer while pausing/paused; first dispatch after "
+        "resume must release exactly the work the twin had launched meanwhile"
+    )
+    return runner.finish("C09", tier, seed, MC, results, rule, t0, mons)
+
+
+def c08(tier, seed, only=None):
+    t0 = time.time()
+    mons = ["vx.monitors.order.OrderIndependent"]
+    base = [s for s in gen.f2_all(tier) if not gen.is_big(s) or tier != "quick"]
+    scns = gen.fixed_outcome_scenarios(base, uniq=False, max_full=4 if tier == "quick" else 6)
+    scns += gen.fixed_outcome_scenarios(gen.f6_publish(tier), uniq=True, max_full=3 if tier == "quick" else 6)
+    jobs = [job(s, dict(horizon=60, max_states=20000), mons) for s in scns]
+    jobs = _filter(jobs, only)
+    results = runner.run_jobs(jobs, seed=seed)
+    rule = (
+        "for every acyclic F2/F6 definition x outcome assignment (fixed per task): all linearisations of "
+        "completions with eager and lazy dispatch; the set of terminal observations (status; on success "
+        "executed multiset, published deltas, single-writer output variables) must be a singleton"
+    )
+    return runner.finish("C08", tier, seed, MC, results, rule, t0, mons)
+
+
+REGISTRY.update({"C02": c02, "C04": c04, "C10": c10, "C09": c09, "C08": c08})
